@@ -11,7 +11,9 @@
     R<n>. reference to the n-th enclosing array/object (a cycle)
   replacer: -  |  f<id> (function family, see `replFn`)  |  L<items>] with items S.. D.. BS.. BD.. Z(other)
   space:    -  |  S.. D.. BS.. BD..  |  Z (anything else)
-  results:  parse: det:<value> | unord:<value with sorted keys> | throw:SyntaxError
+    parse t:<hex units> v<id>                   JSON.parse(text, reviver) (family `reviverFn`); the result is
+                                                <value>|<keys of the reviver calls in call order>
+  results:  parse: det:<value> | unord:<value with sorted keys> | nondet | throw:SyntaxError
             str:   s:<hex units> | undefined | throw:TypeError
 -/
 import OttoVerif.Base.Proto
@@ -111,9 +113,159 @@ def handleParse (text : Str) : String :=
      else match rt with | some t => if rtAny (fun _ => false) loneEsc t then ["parse_lone_surrogate"] else [] | none => [])
   reply (parseOut m) specTok (joinDev dev)
 
+def sA : Str := [97]
+
+/-! ### JSON.parse with a reviver -/
+
+mutual
+def rvTok : RV → String
+  | .undef => "U"
+  | .null => "N"
+  | .bool b => if b then "T" else "F"
+  | .num x => "D" ++ f64Out x
+  | .str s => "S" ++ unitsOut s ++ "."
+  | .arr l => "A" ++ rvsTok l ++ "]"
+  | .obj m => "O" ++ rmsTok m ++ "}"
+def rvsTok : RVs → String
+  | .nil => ""
+  | .cons v t => rvTok v ++ rvsTok t
+def rmsTok : RMs' → String
+  | .nil => ""
+  | .cons k v t => unitsOut k ++ "." ++ rvTok v ++ rmsTok t
+end
+
+def rmsToList : RMs' → List (Str × RV)
+  | .nil => []
+  | .cons k v t => (k, v) :: rmsToList t
+def rmsOfList : List (Str × RV) → RMs'
+  | [] => .nil
+  | (k, v) :: t => .cons k v (rmsOfList t)
+
+def insSorted (p : Str × RV) : List (Str × RV) → List (Str × RV)
+  | [] => [p]
+  | q :: t => if ltStr q.1 p.1 then q :: insSorted p t else p :: q :: t
+
+mutual
+/-- keys sorted at every level (canonical form of a revived value) -/
+partial def rvCanon : RV → RV
+  | .arr l => .arr (rvCanonL l)
+  | .obj m => .obj (rmsOfList (((rmsToList m).map fun p => (p.1, rvCanon p.2)).foldr insSorted []))
+  | v => v
+partial def rvCanonL : RVs → RVs
+  | .nil => .nil
+  | .cons v t => .cons (rvCanon v) (rvCanonL t)
+end
+
+mutual
+/-- every object's properties rotated by r (Go iterates a small map from a random slot and wraps) -/
+partial def rvRotate (r : Nat) : RV → RV
+  | .arr l => .arr (rvRotateL r l)
+  | .obj m =>
+    let l := (rmsToList m).map fun p => (p.1, rvRotate r p.2)
+    .obj (rmsOfList (l.rotateLeft (r % (max l.length 1))))
+  | v => v
+partial def rvRotateL (r : Nat) : RVs → RVs
+  | .nil => .nil
+  | .cons v t => .cons (rvRotate r v) (rvRotateL r t)
+end
+
+def isObjRV : RV → Bool
+  | .null | .arr _ | .obj _ => true
+  | _ => false
+
+/-- the reviver family (the harness holds the same table as JavaScript source) -/
+def reviverFn : Nat → Option Reviver
+  | 0 => some fun _ v => some v
+  | 1 => some fun k v => if k = sA then none else some v
+  | 2 => some fun _ v => match v with | .num _ => none | v => some v
+  | 3 => some fun k v => match v with | .str _ => some (.str k) | v => some v
+  | 4 => some fun _ v => match v with | .bool _ => some .null | v => some v
+  | 5 => some fun k v => if k ≠ [] ∧ isObjRV v then some (.str [111]) else some v
+  | 6 => some fun k v => if k = [98] ∨ k = [49] then none else some v
+  | _ => none
+
+def logTok (l : List Str) : String := ",".intercalate (l.map fun k => "k" ++ unitsOut k)
+
+def insStr (p : Str) : List Str → List Str
+  | [] => [p]
+  | q :: t => if ltStr q p then q :: insStr p t else p :: q :: t
+
+def revTok (r : Option RV × List Str) : String :=
+  (match r.1 with | some v => rvTok v | none => "U") ++ "|" ++ logTok r.2
+def revCanonTok (r : Option RV × List Str) : String :=
+  (match r.1 with | some v => rvTok (rvCanon v) | none => "U") ++ "|" ++ logTok (r.2.foldr insStr [])
+
+def lenRM : RMs' → Nat
+  | .nil => 0
+  | .cons _ _ t => 1 + lenRM t
+
+mutual
+/-- region parse_reviver_live_order: during the ES5 walk some object with three or more properties
+    has a property for which the reviver returns undefined -/
+partial def delRegion (f : Reviver) (name : Str) : RV → Option RV × Bool
+  | .arr l => let r := delRegionL f 0 l; (f name (.arr r.1), r.2)
+  | .obj m =>
+    let kids := (rmsToList m).map fun p => (p.1, delRegion f p.1 p.2)
+    let anyDel := kids.any fun p => p.2.1.isNone
+    let inner := kids.any fun p => p.2.2
+    let m' := rmsOfList (kids.filterMap fun p => p.2.1.map fun x => (p.1, x))
+    (f name (.obj m'), inner || (decide (kids.length ≥ 3) && anyDel))
+  | v => (f name v, false)
+partial def delRegionL (f : Reviver) (i : Nat) : RVs → RVs × Bool
+  | .nil => (.nil, false)
+  | .cons v t =>
+    let r := delRegion f (decimalNat i) v
+    let rest := delRegionL f (i + 1) t
+    (.cons (match r.1 with | some x => x | none => .undef) rest.1, r.2 || rest.2)
+end
+
+mutual
+/-- `decode` (C11/Model) with the properties left in insertion order: the tree the reviver walk starts
+    from, before the (unknown) map order is applied by `rvRotate` -/
+partial def goTree : RT → Option JV
+  | .null => some .null
+  | .bool b => some (.bool b)
+  | .num n => (goNum n).map JV.num
+  | .str s => some (.str (goCombine s))
+  | .arr l => (goTreeL l).map JV.arr
+  | .obj m => (goTreeM m).map fun ms => JV.obj (defineAll .nil ms)
+partial def goTreeL : RTs → Option JVs
+  | .nil => some .nil
+  | .cons v t => (goTree v).bind fun a => (goTreeL t).map fun b => JVs.cons a b
+partial def goTreeM : RMs → Option JMs
+  | .nil => some .nil
+  | .cons k v t => (goTree v).bind fun a => (goTreeM t).map fun b => JMs.cons (goCombine k) a b
+end
+
+def parseDevs (text : Str) : List String :=
+  let rt := parseText text
+  (match rt with | some t => if rtAny overflows (fun _ => false) t then ["parse_num_overflow"] else [] | none => []) ++
+  (if goStr text != text then ["parse_lone_surrogate"]
+   else match rt with | some t => if rtAny (fun _ => false) loneEsc t then ["parse_lone_surrogate"] else [] | none => [])
+
+def handleRevive (text : Str) (f : Reviver) : String :=
+  let fuel := 4 * text.length + 16
+  let modelTok := match (parseText (goStr text)).bind goTree with
+    | none => "throw:SyntaxError"
+    | some mv =>
+      let runs := (List.range 12).map fun r => reviveTop f fuel (rvRotate r (rvOf mv))
+      let canons := runs.map revCanonTok
+      let c0 := canons.headD ""
+      if canons.any (· != c0) then "nondet"
+      else if unordered mv then "unord:" ++ c0
+      else "det:" ++ revTok (runs.headD (none, []))
+  match Spec.jsonParse text with
+  | none => reply modelTok "throw:SyntaxError" (joinDev (parseDevs text))
+  | some v =>
+    let base := rvOf v
+    let specR := Spec.revive f fuel [] base
+    let dev : List String :=
+      (if unordered v then ["parse_key_order"] else []) ++ parseDevs text ++
+      (if (delRegion f [] base).2 then ["parse_reviver_live_order"] else [])
+    reply modelTok ("det:" ++ revTok specR) (joinDev dev)
+
 /-! ### JSON.stringify -/
 
-def sA : Str := [97]
 
 def isObjectish : SV → Bool
   | .null | .boxNum _ | .boxStr _ | .boxBool _ | .arr _ | .obj _ | .tojson _ | .back _ => true
@@ -225,6 +377,12 @@ def handle (ws : List String) : String :=
       match units? (String.ofList (t.toList.drop 2)) with
       | some u => handleParse u
       | none => "bad-op"
+    else "bad-op"
+  | ["parse", t, vt] =>
+    if t.startsWith "t:" ∧ vt.startsWith "v" then
+      match units? (String.ofList (t.toList.drop 2)), (String.ofList (vt.toList.drop 1)).toNat?.bind reviverFn with
+      | some u, some f => handleRevive u f
+      | _, _ => "bad-op"
     else "bad-op"
   | ["str", vt, rt, st] =>
     match sv? vt, replacer? rt, space? st with
